@@ -45,22 +45,73 @@ def scratch_root():
     return tempfile.mkdtemp(prefix="mwlib-verif-", dir=base)
 
 
-def _run_child(prop, desc, idx, sdir, env, timeout):
+def _proc_cpu(pid):
+    try:
+        with open("/proc/%d/stat" % pid) as f:
+            parts = f.read().rsplit(")", 1)[1].split()
+        return (int(parts[11]) + int(parts[12])) / os.sysconf("SC_CLK_TCK")
+    except (OSError, IndexError, ValueError):
+        return 0.0
+
+
+def _crumb_seq(path):
+    try:
+        with open(path, "rb") as f:
+            b = f.read(16)
+        return b[8:16] if len(b) == 16 else None
+    except OSError:
+        return None
+
+
+def _run_child(prop, desc, idx, sdir, env, timeout, case_cpu=None):
     dfile = os.path.join(sdir, "shard%03d.in.json" % idx)
     ofile = os.path.join(sdir, "shard%03d.out.json" % idx)
     with open(dfile, "w") as f:
         json.dump(desc, f)
     cmd = [build.PYTHON, "-X", "faulthandler", "-m", "vlib.child", prop, dfile, ofile]
     crumb = os.path.join(sdir, "shard%03d.crumb" % idx)
+    errf = os.path.join(sdir, "shard%03d.err" % idx)
     env = dict(env, VERIF_CRUMB=crumb)
     t0 = time.time()
-    try:
-        p = subprocess.run(cmd, env=env, cwd=sdir, stdout=subprocess.PIPE,
-                           stderr=subprocess.PIPE, timeout=timeout)
-        rc, err = p.returncode, p.stderr.decode(errors="replace")
-    except subprocess.TimeoutExpired as e:
-        rc, err = -999, "watchdog timeout after %ss\n%s" % (
-            timeout, (e.stderr or b"").decode(errors="replace")[-3000:])
+    blowup = None
+    with open(errf, "wb") as ef:
+        p = subprocess.Popen(cmd, env=env, cwd=sdir, stdout=subprocess.DEVNULL, stderr=ef)
+        # supervisor: CPU time (not wall time) spent since the child's breadcrumb last changed; a
+        # single case burning more than case_cpu seconds of CPU is a blow-up the in-process step
+        # clock cannot see (C-level regex backtracking, big-integer arithmetic, ...)
+        last_seq, cpu_at = None, 0.0
+        while True:
+            try:
+                p.wait(timeout=0.5)
+                break
+            except subprocess.TimeoutExpired:
+                pass
+            if time.time() - t0 > timeout:
+                p.kill()
+                p.wait()
+                break
+            if not case_cpu:
+                continue
+            cpu = _proc_cpu(p.pid)
+            seq = _crumb_seq(crumb)
+            if seq != last_seq:
+                last_seq, cpu_at = seq, cpu
+            elif seq is not None and cpu - cpu_at > case_cpu:
+                import signal
+                try:
+                    p.send_signal(signal.SIGUSR1)      # faulthandler dumps the Python stack
+                    time.sleep(0.7)
+                except OSError:
+                    pass
+                p.kill()
+                p.wait()
+                blowup = cpu - cpu_at
+                break
+    rc = p.returncode
+    with open(errf, "rb") as ef:
+        err = ef.read().decode(errors="replace")
+    if time.time() - t0 > timeout and not blowup:
+        rc, err = -999, "watchdog timeout after %ss\n%s" % (timeout, err[-3000:])
     res = None
     if os.path.exists(ofile):
         try:
@@ -73,9 +124,9 @@ def _run_child(prop, desc, idx, sdir, env, timeout):
         with open(crumb, "rb") as f:
             raw = f.read()
         n = int.from_bytes(raw[:8], "little")
-        last = raw[8:8 + n].decode("utf-8", "surrogatepass")
+        last = raw[16:16 + n].decode("utf-8", "surrogatepass")
     return {"idx": idx, "rc": rc, "err": err[-6000:], "res": res, "wall": time.time() - t0,
-            "desc": desc, "last_case": last}
+            "desc": desc, "last_case": last, "blowup": blowup}
 
 
 def main(prop, tier="quick", seed=0, replay=None, jobs=None):
@@ -101,7 +152,7 @@ def main(prop, tier="quick", seed=0, replay=None, jobs=None):
             else:
                 envs.append(env)
         with ThreadPoolExecutor(max_workers=jobs or NPROC) as ex:
-            futs = [ex.submit(_run_child, prop, d, i, sdir, envs[i], timeout)
+            futs = [ex.submit(_run_child, prop, d, i, sdir, envs[i], timeout, getattr(mod, "CASE_CPU", None))
                     for i, d in enumerate(shards)]
             for f in futs:
                 results.append(f.result())
@@ -121,7 +172,16 @@ def aggregate(results):
     for r in results:
         res = r["res"]
         san = sanitizer_report(r["err"])
-        if san and (res is None or not res.get("complete")):
+        if r.get("blowup"):
+            frame = _innermost_repo_frame(r["err"])
+            S["violations"].append({
+                "key": "cpu-blowup@" + frame,
+                "what": "a single case consumed %.0f s of CPU time without finishing (stack at kill: %s)" % (
+                    r["blowup"], frame),
+                "case": {"crumb": r.get("last_case"), "shard": r["desc"]},
+                "detail": r["err"][-3000:]})
+            S["counters"]["cpu_blowups"] = S["counters"].get("cpu_blowups", 0) + 1
+        elif san and (res is None or not res.get("complete")):
             S["violations"].append({
                 "key": san[0], "what": san[1],
                 "case": {"san": True, "shard": r["desc"], "last_case": r.get("last_case")},
@@ -130,8 +190,8 @@ def aggregate(results):
         elif res is None or not res.get("complete"):
             S["dead"].append({"shard": r["idx"], "rc": r["rc"], "err": r["err"][-1500:],
                               "desc": r["desc"]})
-            if res is None:
-                continue
+        if res is None:
+            continue
         S["evaluations"] += res["evaluations"]
         S["skipped"] += res.get("skipped", 0)
         if res.get("hashes") is not None:
@@ -148,6 +208,18 @@ def aggregate(results):
             if len(S["samples"]) < 8:
                 S["samples"].append(s)
     return S
+
+
+def _innermost_repo_frame(err):
+    """module:function of the innermost frame inside the tree under test in a faulthandler dump
+    (faulthandler prints most recent call first)"""
+    import re
+    src = os.path.join(build.repo_root(), "src") + os.sep
+    for m in re.finditer(r'File "([^"]+)", line \d+ in (\S+)', err):
+        if m.group(1).startswith(src):
+            mod = m.group(1)[len(src):].rsplit(".", 1)[0].replace(os.sep, ".")
+            return "%s:%s" % (mod, m.group(2))
+    return "?"
 
 
 def sanitizer_report(err):
